@@ -866,6 +866,10 @@ func isUnknownSpec(a predOutcome) predOutcome {
 //@ ensures [C12] containers: is[[]any](left) || is[map[string]any](left) ==> (right != nil ==> r0 == predUnknown && r1 == nil)
 //@ ensures [C12] string-eq: is[string](left) && is[string](right) && as[*ast.BinaryNode](node).Operator() == ast.BinaryEqual ==> r1 == nil && r0 == ite(as[string](left) == as[string](right), predTrue, predFalse)
 //@ ensures [C12] bool-order: is[bool](left) && is[bool](right) && as[*ast.BinaryNode](node).Operator() == ast.BinaryLess ==> r1 == nil && r0 == ite(!as[bool](left) && as[bool](right), predTrue, predFalse)
+//@ ensures [C12 C17] datetime-compared-once: (is[*types.Date](left) || is[*types.Time](left) || is[*types.TimeTZ](left) || is[*types.Timestamp](left) || is[*types.TimestampTZ](left)) && right != nil ==> ncalls(compareDatetime) == 1 && callarg[any](compareDatetime, "val1") == left && callarg[any](compareDatetime, "val2") == right
+//@ ensures [C12 C17] datetime-incomparable-is-unknown: (is[*types.Date](left) || is[*types.Time](left) || is[*types.TimeTZ](left) || is[*types.Timestamp](left) || is[*types.TimestampTZ](left)) && ncalls(compareDatetime) == 1 && callret[error](compareDatetime, 1) == nil && callret[int](compareDatetime, 0) < -1 ==> r0 == predUnknown && r1 == nil
+//@ ensures [C12 C17] datetime-error-is-returned: (is[*types.Date](left) || is[*types.Time](left) || is[*types.TimeTZ](left) || is[*types.Timestamp](left) || is[*types.TimestampTZ](left)) && ncalls(compareDatetime) == 1 && callret[error](compareDatetime, 1) != nil ==> r0 == predUnknown && r1 == callret[error](compareDatetime, 1)
+//@ ensures [C12 C17] datetime-order-decides: (is[*types.Date](left) || is[*types.Time](left) || is[*types.TimeTZ](left) || is[*types.Timestamp](left) || is[*types.TimestampTZ](left)) && ncalls(compareDatetime) == 1 && callret[error](compareDatetime, 1) == nil && callret[int](compareDatetime, 0) >= -1 ==> r1 == nil && (as[*ast.BinaryNode](node).Operator() == ast.BinaryEqual ==> r0 == ite(callret[int](compareDatetime, 0) == 0, predTrue, predFalse)) && (as[*ast.BinaryNode](node).Operator() == ast.BinaryNotEqual ==> r0 == ite(callret[int](compareDatetime, 0) != 0, predTrue, predFalse)) && (as[*ast.BinaryNode](node).Operator() == ast.BinaryLess ==> r0 == ite(callret[int](compareDatetime, 0) < 0, predTrue, predFalse)) && (as[*ast.BinaryNode](node).Operator() == ast.BinaryLessOrEqual ==> r0 == ite(callret[int](compareDatetime, 0) <= 0, predTrue, predFalse)) && (as[*ast.BinaryNode](node).Operator() == ast.BinaryGreater ==> r0 == ite(callret[int](compareDatetime, 0) > 0, predTrue, predFalse)) && (as[*ast.BinaryNode](node).Operator() == ast.BinaryGreaterOrEqual ==> r0 == ite(callret[int](compareDatetime, 0) >= 0, predTrue, predFalse))
 //@ ensures [C08 C12] never-verbose: !errIs(r1, ErrVerbose)
 //@ ensures [C05] never-invalid-for-items: !errIs(r1, ErrInvalid) || !(left == nil || is[bool](left) || is[int64](left) || is[float64](left) || is[json.Number](left) || is[string](left) || is[[]any](left) || is[map[string]any](left) || is[*types.Date](left) || is[*types.Time](left) || is[*types.TimeTZ](left) || is[*types.Timestamp](left) || is[*types.TimestampTZ](left))
 
@@ -983,6 +987,8 @@ func isUnknownSpec(a predOutcome) predOutcome {
 //@ alsoprops E3 C16
 //@ alsoprops E2 C16
 //@ props C16
+//@ ensures [C16] float-prints-shortest-text-that-reads-back: is[float64](value) ==> ncalls(exec.executeNextItem) == 1 && callarg[any](exec.executeNextItem, "value") == any(uninterp[string]("ext_strconv_FormatFloat_r0", as[float64](value), byte('f'), -1, 64))
+//@ ensures [C16] integer-prints-in-decimal: is[int64](value) ==> ncalls(exec.executeNextItem) == 1 && callarg[any](exec.executeNextItem, "value") == any(uninterp[string]("ext_strconv_FormatInt_r0", as[int64](value), 10))
 //@ ensures [C16] string-identity: is[string](value) ==> ncalls(exec.executeNextItem) == 1 && callarg[any](exec.executeNextItem, "value") == value
 //@ ensures [C16] bool: is[bool](value) ==> ncalls(exec.executeNextItem) == 1 && callarg[any](exec.executeNextItem, "value") == ite(as[bool](value), any("true"), any("false"))
 //@ ensures [C16] result-string: ncalls(exec.executeNextItem) == 1 ==> is[string](callarg[any](exec.executeNextItem, "value"))
